@@ -9,6 +9,7 @@ import (
 	"fmt"
 	"math/big"
 	mrand "math/rand"
+	"os"
 	"reflect"
 	"sort"
 	"strings"
@@ -45,9 +46,10 @@ type WCellEv struct {
 	Unstable     int       `json:"unstable"`
 	NLeaves      int       `json:"nleaves"`
 	Mutated      int       `json:"mutated"`
+	TwinDiff     int       `json:"twinDiff"`
 	SepZeroEnt   int       `json:"sepZeroEnt"` // 1: the separator function reports entropy 0 although it is random
-	Grp          int       `json:"grp"`   // >0: all wcells with this group describe the same word multiset and recipe
-	Times        int       `json:"times"` // how many constructions produced exactly this outcome
+	Grp          int       `json:"grp"`        // >0: all wcells with this group describe the same word multiset and recipe
+	Times        int       `json:"times"`      // how many constructions produced exactly this outcome
 }
 
 func wlPublic(r spg.WLRecipe) []interface{} {
@@ -140,6 +142,14 @@ func runWLCell(em *Emitter, id int, sc Scenario, seed int64) {
 		runWLReps(em, id, sc, seed)
 		return
 	}
+	for _, ev := range wlCellEvents(id, sc, seed, nil, nil) {
+		em.Emit(ev)
+	}
+}
+
+// wlCellEvents runs the scenario; with pre != nil the calls are made on that existing recipe value (whose list is preWL,
+// built from sc.WL.Words) instead of a freshly built one.
+func wlCellEvents(id int, sc Scenario, seed int64, pre *spg.WLRecipe, preWL *spg.WordList) (events []interface{}) {
 	sc.WL.norm()
 	restore := setEnv(sc.MaxTrials, sc.FailRateOne)
 	defer restore()
@@ -178,6 +188,10 @@ func runWLCell(em *Emitter, id int, sc Scenario, seed int64) {
 				cell.CtorErr = 2
 			}
 		}()
+		if pre != nil {
+			wl = preWL
+			return
+		}
 		if w.NoList == 0 {
 			wl, err = spg.NewWordList(input)
 			if err != nil {
@@ -189,13 +203,16 @@ func runWLCell(em *Emitter, id int, sc Scenario, seed int64) {
 		cell.InputTouched = 1
 	}
 	if cell.CtorErr != 0 {
-		em.Emit(cell)
-		em.Emit(map[string]interface{}{"op": "wcellend", "id": id})
-		return
+		return []interface{}{&cell, map[string]interface{}{"op": "wcellend", "id": id}}
 	}
-	r, wl, err = w.Build(wl)
-	if err != nil {
-		fatal("scenario %d: %v", id, err)
+	rp := &r
+	if pre != nil {
+		rp = pre
+	} else {
+		r, wl, err = w.Build(wl)
+		if err != nil {
+			fatal("scenario %d: %v", id, err)
+		}
 	}
 	if wl != nil {
 		kept, uncap := spg.VerifWordListState(wl)
@@ -206,14 +223,14 @@ func runWLCell(em *Emitter, id int, sc Scenario, seed int64) {
 		cell.Uncap = uncap
 		cell.Size = int(wl.Size())
 	}
-	before := wlPublic(r)
+	before := wlPublic(*rp)
 	e := NewEnum(seed)
 	e.MaxProd = 1 << 26
 	randomPolicy := func(j int, n uint32) uint32 { return uint32(e.Rng.Int63n(int64(n))) }
 	entropyOnce := func() Dyadic {
 		d := Dyadic{K: "panic"}
 		e.Policy = randomPolicy
-		e.Run(nil, func() { d = DyadicOf(r.Entropy()) })
+		e.Run(nil, func() { d = DyadicOf(rp.Entropy()) })
 		e.Policy = nil
 		return d
 	}
@@ -226,7 +243,7 @@ func runWLCell(em *Emitter, id int, sc Scenario, seed int64) {
 	var leaves []lf
 	body := func(res *GenRes) func() {
 		return func() {
-			p, err := r.Generate()
+			p, err := rp.Generate()
 			*res = ResOf(p, err, nil)
 		}
 	}
@@ -305,7 +322,7 @@ func runWLCell(em *Emitter, id int, sc Scenario, seed int64) {
 			cell.Complete = 1
 		}
 	}
-	if !reflect.DeepEqual(before, wlPublic(r)) {
+	if !reflect.DeepEqual(before, wlPublic(*rp)) {
 		cell.Mutated = 1
 	}
 	if !reflect.DeepEqual(input, inputCopy) {
@@ -335,11 +352,12 @@ func runWLCell(em *Emitter, id int, sc Scenario, seed int64) {
 	if len(e.Unreachable) > 0 {
 		cell.Unstable = 1
 	}
-	em.Emit(cell)
+	events = append(events, &cell)
 	for _, l := range leaves {
-		em.Emit(l.ev)
+		events = append(events, l.ev)
 	}
-	em.Emit(map[string]interface{}{"op": "wcellend", "id": id})
+	events = append(events, map[string]interface{}{"op": "wcellend", "id": id})
+	return events
 }
 
 func cmdWLTree(args []string) {
@@ -359,7 +377,12 @@ func cmdWLTree(args []string) {
 			continue
 		}
 		n0 := em.N
-		runWLCell(em, i, sc, *seed*1000003+int64(i))
+		if !withDeadline(func() { runWLCell(em, i, sc, *seed*1000003+int64(i)) }, cellDeadline) {
+			// the library did not come back (e.g. an exponential count or an unbounded loop): keep what is complete, stop this shard
+			em.Close()
+			fmt.Printf("{\"cells\":%d,\"leaves\":%d,\"timeout\":%d}\n", cells, leaves, i)
+			os.Exit(5)
+		}
 		cells++
 		leaves += em.N - n0 - 2
 	}
